@@ -329,6 +329,27 @@ def positions(doc: Doc) -> List[Tuple[int, int]]:
     return [(bi, p) for bi, b in enumerate(doc.blocks()) for p in range(len(b.stmts) + 1)]
 
 
+def _long_inputs(rng: random.Random, n: int, sep: str = ", ") -> str:
+    """A one-line input list of 80-200 characters."""
+    target = rng.randrange(80, 200)
+    parts: List[str] = []
+    i = 0
+    while len(sep.join(parts)) < target:
+        parts.append(f"{i + 1} item{n}x{i}")
+        i += 1
+    return sep.join(parts)
+
+
+def _long_name(rng: random.Random, n: int) -> str:
+    target = rng.randrange(80, 200)
+    s = f"item{n}"
+    i = 0
+    while len(s) < target:
+        s += f" and a very long ingredient name part {i}"
+        i += 1
+    return s
+
+
 def inject(doc: Doc, rng: random.Random, kind: str, bi: int, p: int) -> Optional[Doc]:
     """One fault of the given kind inserted as a new statement at position p of block bi.
     doc.fault = {kind, block, stmt_index, line_in_stmt, col, token}."""
@@ -336,10 +357,19 @@ def inject(doc: Doc, rng: random.Random, kind: str, bi: int, p: int) -> Optional
     b = d.blocks()[bi]
     n = 9000 + rng.randrange(1000)
     li = 0
+    # shape of the faulty line: plain, tabs as horizontal white space, a long line (80-200 characters), both
+    shape = rng.choice(["plain", "plain", "tab", "long", "long+tab"])
     if kind == "redef":
         name = f"dup{n}"
         second_name = rng.choice([name, name.upper(), name.capitalize()])
-        second = [f"{second_name} = 2 item{n}b"]
+        if shape == "plain":
+            second = [f"{second_name} = 2 item{n}b"]
+        elif shape == "tab":
+            second = [f"{second_name}\t=\t2\titem{n}b"]
+        elif shape == "long":
+            second = [f"{second_name} = mix({_long_inputs(rng, n)})"]
+        else:
+            second = [f"{second_name}\t= mix({_long_inputs(rng, n, ',' + chr(9))})"]
         col, token = 0, second_name
         # first definition: earlier in the same block, or in an earlier block of the same independent recipe
         cands: List[Tuple[int, int]] = [(bi, q) for q in range(p + 1)]
@@ -365,8 +395,12 @@ def inject(doc: Doc, rng: random.Random, kind: str, bi: int, p: int) -> Optional
             li, col, token = 2, 2, f"1/3 of {x}"
         else:
             line = tpl.format(x=x, n=n)
-            st = [line]
             tok = line if not line.startswith("fry(") else f"1/2 of {x}"
+            if shape in ("long", "long+tab"):
+                line = f"fry({_long_inputs(rng, n)}, {tok})"
+            if shape in ("tab", "long+tab"):
+                line, tok = line.replace(" ", "\t"), tok.replace(" ", "\t")
+            st = [line]
             col, token = line.index(tok), tok
         b.stmts.insert(p, st)
         b.blank_after.insert(p, rng.choice([0, 0, 1]) if p < len(b.blank_after) else 0)
@@ -386,6 +420,16 @@ def inject(doc: Doc, rng: random.Random, kind: str, bi: int, p: int) -> Optional
             col = line.index(":")
         else:
             line = ""
+        if where != "multi":
+            if shape in ("long", "long+tab"):
+                line = (f"{tok} {_long_name(rng, n)}" if where == "start" else
+                        f"2 {_long_name(rng, n)} {tok}" if where == "end" else
+                        f"x{n} = = mix({_long_inputs(rng, n)})" if where == "eq" else
+                        f"2 item{n}: {_long_name(rng, n)}")
+            if shape in ("tab", "long+tab"):
+                line = line.replace(" ", "\t")
+            col = (0 if where == "start" else len(line) - 1 if where == "end" else
+                   line.index("=") + 2 if where == "eq" else line.index(":"))
         if where == "multi":
             st = ["fry(", f"  1 item{n}a,", f"  2 item{n}b }}", ")"]
             li, col = 2, len(st[2]) - 1
@@ -419,7 +463,8 @@ def inject(doc: Doc, rng: random.Random, kind: str, bi: int, p: int) -> Optional
     else:
         raise ValueError(kind)
     _fix_last_blank(b)
-    d.fault = {"kind": kind, "block": bi, "stmt": p, "line_in_stmt": li, "col": col, "token": token}
+    d.fault = {"kind": kind, "block": bi, "stmt": p, "line_in_stmt": li, "col": col, "token": token,
+               "shape": shape if kind in ("redef", "prop", "stray") else "plain"}
     return d
 
 
